@@ -1161,12 +1161,12 @@ theorem header_body_avoid {c0 : UInt8} (hc : c0 = 0 ∨ c0 = 10) (h : IniSpec.He
 
 /-- one line of the document, as one `fgets` chunk (`pfx` = the BOM on the first line) -/
 theorem step_line (st : PState) (pfx : Bytes) (l : IniSpec.Line) (hwf : l.body.wf = true)
-    (hsh : bomShift (pfx ++ l.render) = pfx.length) (hlen : l.render.length ≤ maxLine) :
-    step true st (pfx ++ l.render) = bodyEffect st l.body := by
-  have h0 : ∀ x ∈ l.render, x ≠ 0 := no0_append (body_no0 l.body hwf) (eol_allSpace l.eol).no0
+    (hsh : bomShift (pfx ++ l.core) = pfx.length) (hlen : l.core.length ≤ maxLine) :
+    step true st (pfx ++ l.core) = bodyEffect st l.body := by
+  have h0 : ∀ x ∈ l.core, x ≠ 0 := no0_append (body_no0 l.body hwf) (eol_allSpace l.eol).no0
   unfold step
-  rw [lineOf_eq pfx l.render hsh h0 hlen]
-  simp only [IniSpec.Line.render] at hlen ⊢
+  rw [lineOf_eq pfx l.core hsh h0 hlen]
+  simp only [IniSpec.Line.core] at hlen ⊢
   cases hb : l.body with
   | blank ws =>
     rw [hb] at hwf
@@ -1212,20 +1212,20 @@ theorem step_line (st : PState) (pfx : Bytes) (l : IniSpec.Line) (hwf : l.body.w
       exact Nat.le_trans (chomp_length_le _) hlen
 
 theorem step_header (st : PState) (pfx : Bytes) (h : IniSpec.Header) (hwf : h.wf = true)
-    (hsh : bomShift (pfx ++ h.render) = pfx.length) (hlen : h.render.length ≤ maxLine) :
-    step true st (pfx ++ h.render) = { sections := pushSection st, cur := some { name := h.name, keys := [] } } := by
+    (hsh : bomShift (pfx ++ h.core) = pfx.length) (hlen : h.core.length ≤ maxLine) :
+    step true st (pfx ++ h.core) = { sections := pushSection st, cur := some { name := h.name, keys := [] } } := by
   have hwf0 := hwf
   simp only [IniSpec.Header.wf, Bool.and_eq_true] at hwf
   obtain ⟨⟨⟨⟨⟨⟨hlead, hpre⟩, hpost⟩, htrail⟩, hnplain⟩, hntrim⟩, hn93⟩ := hwf
-  have h0 : ∀ x ∈ h.render, x ≠ 0 := by
-    simp only [IniSpec.Header.render]
+  have h0 : ∀ x ∈ h.core, x ≠ 0 := by
+    simp only [IniSpec.Header.core]
     exact no0_append (header_body_avoid (Or.inl rfl) h hwf0) (eol_allSpace h.eol).no0
   unfold step
-  rw [lineOf_eq pfx h.render hsh h0 hlen]
+  rw [lineOf_eq pfx h.core hsh h0 hlen]
   obtain ⟨a, b, ha, hb, hsa, hsb⟩ := trimmed_Trimmed hntrim
-  have hsplit : h.render = h.lead ++ (91 :: (h.pre ++ h.name ++ h.post ++ [93])) ++ (h.trail ++ h.eol.bytes) := by
-    simp [IniSpec.Header.render, List.append_assoc]
-  have hch : chomp h.render = 91 :: (h.pre ++ h.name ++ h.post ++ [93]) := by
+  have hsplit : h.core = h.lead ++ (91 :: (h.pre ++ h.name ++ h.post ++ [93])) ++ (h.trail ++ h.eol.bytes) := by
+    simp [IniSpec.Header.core, List.append_assoc]
+  have hch : chomp h.core = 91 :: (h.pre ++ h.name ++ h.post ++ [93]) := by
     rw [hsplit]
     refine chomp_sandwich' _ _ _ 91 93 (allBlank_allSpace hlead) ?_ rfl ?_ (by decide) (by decide)
     · intro x hx; simp only [List.mem_append] at hx
@@ -1236,7 +1236,7 @@ theorem step_header (st : PState) (pfx : Bytes) (h : IniSpec.Header) (hwf : h.wf
   rw [hch]
   apply stepLine_header st h.pre h.name h.post (allBlank_allSpace hpre) (allBlank_allSpace hpost) a b ha hb hsa hsb
     (not_contains hn93)
-  simp only [IniSpec.Header.render, List.length_append] at hlen
+  simp only [IniSpec.Header.core, List.length_append] at hlen
   omega
 
 /-! ## `fgets` on a file that consists of lines -/
@@ -1341,15 +1341,27 @@ def RLine.eol : RLine → IniSpec.Eol
   | .body l => l.eol
   | .header h => h.eol
 
+def RLine.mark : RLine → IniSpec.Bom
+  | .body l => l.mark
+  | .header h => h.mark
+
+/-- the line without its mark -/
+def RLine.core : RLine → Bytes
+  | .body l => l.core
+  | .header h => h.core
+
 def RLine.render : RLine → Bytes
   | .body l => l.render
   | .header h => h.render
+
+theorem RLine.render_mark (r : RLine) : r.render = r.mark.bytes ++ r.core := by
+  cases r <;> rfl
 
 def RLine.wf : RLine → Bool
   | .body l => l.body.wf
   | .header h => h.wf
 
-theorem RLine.render_eq (r : RLine) : r.render = r.pre ++ r.eol.bytes := by
+theorem RLine.core_eq (r : RLine) : r.core = r.pre ++ r.eol.bytes := by
   cases r <;> rfl
 
 def secRLines (s : IniSpec.Sec) : List RLine := .header s.header :: s.body.map .body
@@ -1372,14 +1384,26 @@ theorem doc_eols_eq (d : IniSpec.Doc) : d.eols = (docRLines d).map RLine.eol := 
     funext s; simp [secRLines, RLine.eol, Function.comp_def]
   rw [h1, h2]
 
+theorem doc_cores_eq (d : IniSpec.Doc) : d.cores = (docRLines d).map (fun r => (r.mark, r.core)) := by
+  unfold IniSpec.Doc.cores docRLines
+  rw [List.map_append, List.map_map, List.map_flatMap]
+  have h2 : (fun s => (secRLines s).map (fun r => (r.mark, r.core))) = IniSpec.Sec.cores := by
+    funext s; simp [secRLines, IniSpec.Sec.cores, RLine.mark, RLine.core, Function.comp_def]
+  rw [h2]
+  rfl
+
+theorem eff_bytes (a m : IniSpec.Bom) (h : a = .none ∨ m = .none) :
+    a.bytes ++ m.bytes = (if a = .none then m else a).bytes := by
+  cases a <;> cases m <;> simp_all [IniSpec.Bom.bytes]
+
 theorem rline_pre_avoid {c0 : UInt8} (hc : c0 = 0 ∨ c0 = 10) (r : RLine) (hwf : r.wf = true) : ∀ x ∈ r.pre, x ≠ c0 := by
   cases r with
   | body l => exact body_avoid hc l.body hwf
   | header h => exact header_body_avoid hc h hwf
 
 theorem rline_isLine (p : Bytes) (hp : ∀ x ∈ p, x ≠ 10) (r : RLine) (hwf : r.wf = true) (he : r.eol ≠ .eof) :
-    IsLine (p ++ r.render) := by
-  rw [RLine.render_eq]
+    IsLine (p ++ r.core) := by
+  rw [RLine.core_eq]
   have h10 := rline_pre_avoid (Or.inr rfl) r hwf
   cases hr : r.eol with
   | lf => exact ⟨p ++ r.pre, by simp [IniSpec.Eol.bytes], avoid_append hp h10⟩
@@ -1388,9 +1412,12 @@ theorem rline_isLine (p : Bytes) (hp : ∀ x ∈ p, x ≠ 10) (r : RLine) (hwf :
   | eof => exact absurd hr he
 
 theorem rline_no10 (p : Bytes) (hp : ∀ x ∈ p, x ≠ 10) (r : RLine) (hwf : r.wf = true) (he : r.eol = .eof) :
-    ∀ x ∈ p ++ r.render, x ≠ 10 := by
-  rw [RLine.render_eq, he]
+    ∀ x ∈ p ++ r.core, x ≠ 10 := by
+  rw [RLine.core_eq, he]
   simpa [IniSpec.Eol.bytes] using avoid_append hp (rline_pre_avoid (Or.inr rfl) r hwf)
+
+theorem bom_avoid10 (b : IniSpec.Bom) : ∀ x ∈ b.bytes, x ≠ 10 := by
+  cases b <;> simp [IniSpec.Bom.bytes]
 
 theorem linesOk_map (L : Nat) (rl : List RLine) (hwf : ∀ r ∈ rl, r.wf = true)
     (he : IniSpec.eolsOk (rl.map RLine.eol) = true) (hlen : ∀ r ∈ rl, r.render.length ≤ L) :
@@ -1398,24 +1425,29 @@ theorem linesOk_map (L : Nat) (rl : List RLine) (hwf : ∀ r ∈ rl, r.wf = true
   induction rl with
   | nil => trivial
   | cons r rest ih =>
-    have hnil : ∀ x ∈ ([] : Bytes), x ≠ 10 := by intro x hx; simp at hx
+    have hm := bom_avoid10 r.mark
+    have e := RLine.render_mark r
     cases rest with
     | nil =>
       refine ⟨hlen r (by simp), ?_⟩
+      show IsLine r.render ∨ ∀ b ∈ r.render, b ≠ 10
+      rw [e]
       by_cases hr : r.eol = .eof
-      · exact Or.inr (by simpa using rline_no10 [] hnil r (hwf r (by simp)) hr)
-      · exact Or.inl (by simpa using rline_isLine [] hnil r (hwf r (by simp)) hr)
+      · exact Or.inr (rline_no10 _ hm r (hwf r (by simp)) hr)
+      · exact Or.inl (rline_isLine _ hm r (hwf r (by simp)) hr)
     | cons r2 rest' =>
       simp only [List.map_cons, IniSpec.eolsOk, Bool.and_eq_true, bne_iff_ne, ne_eq] at he
-      refine ⟨hlen r (by simp), by simpa using rline_isLine [] hnil r (hwf r (by simp)) he.1, ?_⟩
-      exact ih (fun x hx => hwf x (by simp [hx])) (by simpa using he.2) (fun x hx => hlen x (by simp [hx]))
+      refine ⟨hlen r (by simp), ?_, ?_⟩
+      · show IsLine r.render
+        rw [e]; exact rline_isLine _ hm r (hwf r (by simp)) he.1
+      · exact ih (fun x hx => hwf x (by simp [hx])) (by simpa using he.2) (fun x hx => hlen x (by simp [hx]))
 
-/-- the chunks of a document: the BOM (if any) is glued to the first line -/
+/-- the chunks of a document: the mark of the first line (the file's or its own) is glued to it -/
 theorem linesOk_chunks (L : Nat) (p : Bytes) (hp : ∀ x ∈ p, x ≠ 10) (r : RLine) (rest : List RLine)
     (hwf : ∀ x ∈ r :: rest, x.wf = true)
-    (he : IniSpec.eolsOk ((r :: rest).map RLine.eol) = true) (hlen1 : p.length + r.render.length ≤ L)
+    (he : IniSpec.eolsOk ((r :: rest).map RLine.eol) = true) (hlen1 : p.length + r.core.length ≤ L)
     (hlen : ∀ x ∈ rest, x.render.length ≤ L) :
-    LinesOk L ((p ++ r.render) :: rest.map RLine.render) := by
+    LinesOk L ((p ++ r.core) :: rest.map RLine.render) := by
   cases rest with
   | nil =>
     refine ⟨by simp; omega, ?_⟩
@@ -1433,14 +1465,27 @@ def rlineEffect (st : PState) : RLine → PState
   | .header h => { sections := pushSection st, cur := some { name := h.name, keys := [] } }
 
 theorem step_rline (st : PState) (pfx : Bytes) (r : RLine) (hwf : r.wf = true)
-    (hsh : bomShift (pfx ++ r.render) = pfx.length) (hlen : r.render.length ≤ maxLine) :
-    step true st (pfx ++ r.render) = rlineEffect st r := by
+    (hsh : bomShift (pfx ++ r.core) = pfx.length) (hlen : r.core.length ≤ maxLine) :
+    step true st (pfx ++ r.core) = rlineEffect st r := by
   cases r with
   | body l => exact step_line st pfx l hwf hsh hlen
   | header h => exact step_header st pfx h hwf hsh hlen
 
-theorem foldl_rlines (rl : List RLine) (st : PState) (hwf : ∀ r ∈ rl, r.wf = true)
-    (hok : ∀ r ∈ rl, r.render.length ≤ maxLine ∧ IniSpec.startsWithBom r.render = false) :
+/-- a mark is skipped; without one nothing is, provided the line does not start like a mark -/
+theorem bomShift_mark (b : IniSpec.Bom) (L : Bytes) (h : b ≠ .none ∨ IniSpec.startsWithBom L = false) :
+    bomShift (b.bytes ++ L) = b.bytes.length := by
+  by_cases hb : b = .none
+  · subst hb
+    rcases h with h | h
+    · exact absurd rfl h
+    · simpa [IniSpec.Bom.bytes] using bomShift_none L h
+  · exact bomShift_bom b hb L
+
+/-- a line is fine for the read loop: with its mark it fits the buffer, and without a mark it does not start like one -/
+def RLine.ok (r : RLine) : Prop :=
+  r.mark.bytes.length + r.core.length ≤ maxLine ∧ (r.mark ≠ .none ∨ IniSpec.startsWithBom r.core = false)
+
+theorem foldl_rlines (rl : List RLine) (st : PState) (hwf : ∀ r ∈ rl, r.wf = true) (hok : ∀ r ∈ rl, r.ok) :
     (rl.map RLine.render).foldl (step true) st = rl.foldl rlineEffect st := by
   induction rl generalizing st with
   | nil => rfl
@@ -1448,8 +1493,8 @@ theorem foldl_rlines (rl : List RLine) (st : PState) (hwf : ∀ r ∈ rl, r.wf =
     simp only [List.map_cons, List.foldl_cons]
     have h1 := hok r (by simp)
     have : step true st r.render = rlineEffect st r := by
-      have := step_rline st [] r (hwf r (by simp)) (by simpa using bomShift_none r.render h1.2) h1.1
-      simpa using this
+      rw [RLine.render_mark]
+      exact step_rline st r.mark.bytes r (hwf r (by simp)) (bomShift_mark r.mark r.core h1.2) (by have := h1.1; omega)
     rw [this]
     exact ih _ (fun x hx => hwf x (by simp [hx])) (fun x hx => hok x (by simp [hx]))
 
@@ -1472,9 +1517,6 @@ theorem wf_rlines (σ : IniSpec.Style) (d : IniSpec.Doc) (h : IniSpec.WF σ d = 
     rcases hr with rfl | ⟨l, hl, rfl⟩
     · exact this.1
     · exact this.2 l hl
-
-theorem bom_avoid10 (b : IniSpec.Bom) : ∀ x ∈ b.bytes, x ≠ 10 := by
-  cases b <;> simp [IniSpec.Bom.bytes]
 
 theorem bom_only (b : IniSpec.Bom) (st : PState) : (splitLines b.bytes).foldl (step true) st = st := by
   by_cases hb : b = .none
@@ -1501,28 +1543,27 @@ theorem foldl_render (σ : IniSpec.Style) (d : IniSpec.Doc) (hwf : IniSpec.WF σ
   rw [doc_eols_eq] at heols
   unfold IniSpec.linesOk at hlines
   unfold IniSpec.render
-  rw [doc_lines_eq] at hlines ⊢
+  rw [doc_cores_eq] at hlines
+  rw [doc_lines_eq]
   cases hrl : docRLines d with
   | nil => simpa using bom_only σ.bom st
   | cons r rest =>
     rw [hrl] at hrw heols hlines
-    simp only [List.map_cons, Bool.and_eq_true, decide_eq_true_eq, Bool.or_eq_true, bne_iff_ne, ne_eq,
+    simp only [List.map_cons, IniSpec.lineOk, Bool.and_eq_true, decide_eq_true_eq, Bool.or_eq_true, bne_iff_ne, ne_eq,
       Bool.not_eq_true', List.all_eq_true, List.mem_map, forall_exists_index, and_imp,
-      forall_apply_eq_imp_iff₂] at hlines
-    obtain ⟨⟨hlen1, hbom⟩, hrest⟩ := hlines
+      forall_apply_eq_imp_iff₂, beq_iff_eq] at hlines
+    obtain ⟨⟨hone, hlen1, hbom⟩, hrest⟩ := hlines
     rw [← maxLine_eq] at hlen1 hrest
-    have hok := linesOk_chunks maxLine σ.bom.bytes (bom_avoid10 σ.bom) r rest hrw (by simpa using heols) hlen1
-      (fun x hx => (hrest x hx).1)
+    have hb := eff_bytes σ.bom r.mark hone
+    generalize (if σ.bom = IniSpec.Bom.none then r.mark else σ.bom) = b at hb hlen1 hbom
+    have hok := linesOk_chunks maxLine b.bytes (bom_avoid10 b) r rest hrw (by simpa using heols) hlen1
+      (fun x hx => by rw [RLine.render_mark, List.length_append]; exact (hrest x hx).1)
     have hflat : σ.bom.bytes ++ (r.render :: rest.map RLine.render).flatten
-        = ((σ.bom.bytes ++ r.render) :: rest.map RLine.render).flatten := by simp
+        = ((b.bytes ++ r.core) :: rest.map RLine.render).flatten := by
+      rw [RLine.render_mark]
+      simp only [List.flatten_cons, ← List.append_assoc, hb]
     rw [List.map_cons, hflat, splitLines_eq, split_lines maxLine _ hok, foldl_filter_step, List.foldl_cons]
-    have hsh : bomShift (σ.bom.bytes ++ r.render) = σ.bom.bytes.length := by
-      rcases hbom with hb | hb
-      · exact bomShift_bom σ.bom hb r.render
-      · by_cases hn : σ.bom = .none
-        · rw [hn]; simpa [IniSpec.Bom.bytes] using bomShift_none r.render hb
-        · exact bomShift_bom σ.bom hn r.render
-    rw [step_rline st σ.bom.bytes r (hrw r (by simp)) hsh (by omega)]
+    rw [step_rline st b.bytes r (hrw r (by simp)) (bomShift_mark b r.core hbom) (by omega)]
     rw [foldl_rlines rest _ (fun x hx => hrw x (by simp [hx])) (fun x hx => hrest x hx)]
     rfl
 
@@ -1899,6 +1940,51 @@ theorem meaningOf_strict (secs : List IniSpec.Sec) (h : ∀ s ∈ secs, bodyStri
   apply filterMap_congr'
   intro s hs
   simp only [entriesOf_strict s.body (h s hs)]
+
+/-! ## documents without marks inside: `linesOk` is what it was before marks were admitted on every line -/
+
+/-- no line carries a mark of its own (the file may: `Style.bom`) -/
+def Unmarked (d : IniSpec.Doc) : Bool :=
+  d.preamble.all (·.mark == .none) && d.secs.all fun s => s.header.mark == .none && s.body.all (·.mark == .none)
+
+/-- the former `linesOk`: every physical line fits the line buffer and does not look like a byte-order mark -/
+def formerLinesOk (σ : IniSpec.Style) (d : IniSpec.Doc) : Bool :=
+  match d.lines with
+  | [] => true
+  | l :: ls => (σ.bom.bytes.length + l.length ≤ IniSpec.maxLine && (σ.bom != .none || !IniSpec.startsWithBom l))
+               && ls.all fun l => l.length ≤ IniSpec.maxLine && !IniSpec.startsWithBom l
+
+theorem unmarked_rlines (d : IniSpec.Doc) (h : Unmarked d = true) : ∀ r ∈ docRLines d, r.mark = .none := by
+  simp only [Unmarked, Bool.and_eq_true, List.all_eq_true, beq_iff_eq] at h
+  obtain ⟨hpre, hsecs⟩ := h
+  intro r hr
+  simp only [docRLines, List.mem_append, List.mem_map, List.mem_flatMap] at hr
+  rcases hr with ⟨l, hl, rfl⟩ | ⟨s, hs, hr⟩
+  · exact hpre l hl
+  · have := hsecs s hs
+    simp only [secRLines, List.mem_cons, List.mem_map] at hr
+    rcases hr with rfl | ⟨l, hl, rfl⟩
+    · exact this.1
+    · exact this.2 l hl
+
+theorem cores_unmarked (d : IniSpec.Doc) (h : Unmarked d = true) :
+    d.cores = d.lines.map fun l => (IniSpec.Bom.none, l) := by
+  rw [doc_cores_eq, doc_lines_eq, List.map_map]
+  apply List.map_congr_left
+  intro r hr
+  have hm := unmarked_rlines d h r hr
+  simp [RLine.render_mark, hm, IniSpec.Bom.bytes]
+
+theorem linesOk_unmarked (σ : IniSpec.Style) (d : IniSpec.Doc) (h : Unmarked d = true) :
+    IniSpec.linesOk σ d = formerLinesOk σ d := by
+  unfold IniSpec.linesOk formerLinesOk
+  rw [cores_unmarked d h]
+  cases d.lines with
+  | nil => rfl
+  | cons l ls =>
+    simp only [List.map_cons, List.all_map, Function.comp_def, IniSpec.lineOk, IniSpec.Bom.bytes, List.length_nil,
+      Nat.zero_add, beq_self_eq_true, Bool.or_true, Bool.true_and, bne_self_eq_false, Bool.false_or]
+    cases σ.bom <;> simp [IniSpec.Bom.bytes]
 
 /-! ## getters -/
 
